@@ -57,6 +57,10 @@ type Scheduler struct {
 	pause     time.Duration
 	lastError error
 	handlers  map[dag.HandlerType]*Node
+	// outcome is the status of the run decided when its last step finished;
+	// the handlers are selected from it.
+	outcome    Status
+	hasOutcome bool
 }
 
 func New(cfg *Config) *Scheduler {
@@ -258,8 +262,15 @@ func (sc *Scheduler) Schedule(ctx context.Context, g *ExecutionGraph, done chan 
 	verifPoint("loop.wgwait", nil)
 	wg.Wait()
 
+	// The outcome of the run is decided here, where the handlers are selected:
+	// a stop request that arrives while they run does not change it anymore.
+	outcome := sc.Status(g)
+	sc.mu.Lock()
+	sc.outcome, sc.hasOutcome = outcome, true
+	sc.mu.Unlock()
+
 	var handlers []dag.HandlerType
-	switch sc.Status(g) {
+	switch outcome {
 	case StatusSuccess:
 		handlers = append(handlers, dag.HandlerOnSuccess)
 	case StatusError:
@@ -355,6 +366,12 @@ func (sc *Scheduler) Cancel(g *ExecutionGraph) {
 
 // Status returns the status of the scheduler.
 func (sc *Scheduler) Status(g *ExecutionGraph) Status {
+	sc.mu.RLock()
+	outcome, decided := sc.outcome, sc.hasOutcome
+	sc.mu.RUnlock()
+	if decided {
+		return outcome
+	}
 	if sc.isCanceled() && !sc.isSucceed(g) {
 		return StatusCancel
 	}
